@@ -4,6 +4,7 @@ import (
 	"fmt"
 	"io"
 	"os"
+	"path/filepath"
 	"sort"
 	"strings"
 	"time"
@@ -156,6 +157,21 @@ func c07RunImpl(c corr.Case) []string {
 				}
 				return "err:inval"
 			}
+			if t[0] == "links-os" {
+				return c07LinksOS()
+			}
+			if t[0] == "chtimes-zero" { // Chtimes with the zero time.Time as modification time ("leave it alone" for os.Chtimes): still a mutating call
+				before := FullSnapshot(st.src, st.root)
+				err := st.wrapper.Chtimes(string(corr.UnHex(t[1])), time.Unix(7, 0), time.Time{})
+				note := ""
+				if FullSnapshot(st.src, st.root) != before {
+					note += " #FROZEN-VIOLATED"
+				}
+				if ErrClass(err) != "perm" {
+					note += " #NOT-REFUSED"
+				}
+				return "err:" + ErrClass(err) + note
+			}
 			if t[0] == "fsreaddir" { // the wrapper's own ReadDir method (ReadOnlyFs has one), against afero.ReadDir of the wrapped filesystem
 				name := string(corr.UnHex(t[1]))
 				rd, ok := st.wrapper.(interface {
@@ -260,6 +276,54 @@ func drain(f afero.File) string {
 var c07Mutators = map[string]bool{"create": true, "mkdir": true, "mkdirall": true, "remove": true, "removeall": true,
 	"rename": true, "chmod": true, "chown": true, "chtimes": true}
 
+// c07LinksOS: reads through the wrapper on a tree with symbolic links (operating system's file system): Stat follows
+// a link exactly as the source's Stat does, LstatIfPossible describes the link itself exactly as the source's does,
+// Open and ReadFile reach the target — for a link to a file, to a directory, to nothing, directly over OsFs and over
+// a BasePathFs on it.
+func c07LinksOS() string {
+	dir, err := os.MkdirTemp("", "verif-c07l-")
+	if err != nil {
+		return "fail: " + err.Error()
+	}
+	defer os.RemoveAll(dir)
+	os.MkdirAll(filepath.Join(dir, "real"), 0o755)
+	os.WriteFile(filepath.Join(dir, "real", "f.txt"), []byte("target bytes"), 0o644)
+	os.Symlink(filepath.Join(dir, "real", "f.txt"), filepath.Join(dir, "link.txt"))
+	os.Symlink("real", filepath.Join(dir, "linkdir"))
+	os.Symlink("nowhere", filepath.Join(dir, "dangling"))
+	describe := func(fi os.FileInfo, err error) string {
+		if err != nil {
+			return "err:" + ErrClass(err)
+		}
+		return fmt.Sprintf("%s type=%v size=%d", fi.Name(), fi.Mode().Type(), fi.Size())
+	}
+	sources := map[string]afero.Fs{"os": afero.NewOsFs(), "bp": afero.NewBasePathFs(afero.NewOsFs(), dir)}
+	for _, sn := range []string{"os", "bp"} {
+		src := sources[sn]
+		ro := afero.NewReadOnlyFs(src)
+		for _, n := range []string{"link.txt", "linkdir", "dangling", "real/f.txt", "linkdir/f.txt", "real"} {
+			p := "/" + n
+			if sn == "os" {
+				p = filepath.Join(dir, n)
+			}
+			if got, want := describe(ro.Stat(p)), describe(src.Stat(p)); got != want {
+				return fmt.Sprintf("fail: Stat(%s) through the wrapper over %s answers [%s], the source answers [%s]", n, sn, got, want)
+			}
+			lg, _, e1 := ro.(afero.Lstater).LstatIfPossible(p)
+			lw, _, e2 := src.(afero.Lstater).LstatIfPossible(p)
+			if got, want := describe(lg, e1), describe(lw, e2); got != want {
+				return fmt.Sprintf("fail: LstatIfPossible(%s) through the wrapper over %s answers [%s], the source answers [%s]", n, sn, got, want)
+			}
+			bg, e3 := afero.ReadFile(ro, p)
+			bw, e4 := afero.ReadFile(src, p)
+			if string(bg) != string(bw) || ErrClass(e3) != ErrClass(e4) {
+				return fmt.Sprintf("fail: ReadFile(%s) through the wrapper over %s gives %q, %v; the source gives %q, %v", n, sn, bg, e3, bw, e4)
+			}
+		}
+	}
+	return "ok"
+}
+
 func c07Oracle(c corr.Case, impl []string) (string, int) {
 	for i, line := range c.Lines {
 		t := strings.Fields(line)
@@ -268,6 +332,12 @@ func c07Oracle(c corr.Case, impl []string) (string, int) {
 		}
 		if strings.Contains(impl[i], "#FROZEN-VIOLATED") {
 			return t[0] + " through the read-only wrapper changed the wrapped filesystem", i
+		}
+		if strings.Contains(impl[i], "#NOT-REFUSED") {
+			return t[0] + " did not fail with a permission error: " + impl[i], i
+		}
+		if t[0] == "links-os" && strings.HasPrefix(impl[i], "fail") {
+			return impl[i], i
 		}
 		if strings.Contains(impl[i], "#NOT-TRANSPARENT") {
 			return t[0] + " through the wrapper differs from the direct call: " + impl[i], i
@@ -383,7 +453,8 @@ func c07Exhaustive(tier string) []corr.Case {
 	for _, st := range []string{"ro-mem", "ro-os", "ro-bp", "ro-ro"} {
 		l := append([]string{"case " + st}, c07Setup()...)
 		l = append(l, "fsreaddir "+h("/d"), "fsreaddir "+h("/"), "fsreaddir "+h("/d/"), "src.create "+h("/d/added"), "src.remove "+h("/d/file"), "fsreaddir "+h("/d"),
-			"fsreaddir "+h("/d/."), "src.mkdir "+h("/d/newdir")+" 493", "fsreaddir "+h("/d"), "fsreaddir "+h("/absent"), "fsreaddir "+h("/top"), "snapshot")
+			"fsreaddir "+h("/d/."), "src.mkdir "+h("/d/newdir")+" 493", "fsreaddir "+h("/d"), "fsreaddir "+h("/absent"), "fsreaddir "+h("/top"), "snapshot",
+			"chtimes-zero "+h("/d/file"), "chtimes-zero "+h("/d"), "chtimes-zero "+h("/absent"), "links-os", "snapshot")
 		cases = append(cases, corr.Case{Lines: l})
 	}
 	// reads with names that are not clean: the wrapper hands them on as they are (below a BasePathFs a name that
